@@ -42,3 +42,27 @@ Definition C03_agree (c : C03_case) (o : C03_obs) : bool :=
   | None => false
   end.
 
+
+(* ---- exhaustive sweep of the final-batch-size function (wave 5) ----
+   CPick lo hi nbhi: for every batch size bs in lo..hi, every bucket count nb in 1..nbhi and
+   every remainder rem in 0..bs-1 the implementation's _pick_final_batch_size(rem, bs, nb)
+   was observed; the observation is run-length encoded per (bs, nb) row as (value, count)
+   pairs.  The model recomputes every row with the translated function `pick`. *)
+Inductive C03_anycase := CView (c : C03_case) | CPick (lo hi nbhi : Z).
+Inductive C03_anyobs := OView (o : C03_obs) | OPick (runs : list (list (Z * Z))).
+
+Definition expand_runs (runs : list (Z * Z)) : list Z :=
+  flat_map (fun vc => repeat (fst vc) (Z.to_nat (snd vc))) runs.
+
+Definition pick_row (bs nb : Z) : list Z :=
+  map (fun rem => match pick rem bs nb with Some r => r | None => -1 end) (py_range 0 bs 1).
+
+Definition pick_rows (lo hi nbhi : Z) : list (list Z) :=
+  flat_map (fun bs => map (fun nb => pick_row bs nb) (py_range 1 (nbhi + 1) 1)) (py_range lo (hi + 1) 1).
+
+Definition C03_agree_any (c : C03_anycase) (o : C03_anyobs) : bool :=
+  match c, o with
+  | CView c, OView o => C03_agree c o
+  | CPick lo hi nbhi, OPick runs => llz_eqb (pick_rows lo hi nbhi) (map expand_runs runs)
+  | _, _ => false
+  end.
